@@ -89,7 +89,14 @@ class Names(Harness):
         n = len(CALLABLES)
         if tier == "quick":
             # different callables: same description (names must differ); same callable: one aspect varied
-            return [{"c1": a, "c2": b, "maxargs": 1, "npalette": 5, "aspects": 5 if a == b else 1} for a in range(n) for b in range(a, n)]
+            from vf.engine_xh import split_prefixes
+
+            out = []
+            for a in range(n):
+                for b in range(a, n):
+                    base = {"c1": a, "c2": b, "maxargs": 1, "npalette": 5, "aspects": 5 if a == b else 1}
+                    out += [{**base, "_prefix": p} for p in split_prefixes(self.body, base, 6)] if a == b else [base]
+            return out
         return ([{"c1": a, "c2": b, "maxargs": 2, "npalette": len(ARGS)} for a in range(n) for b in range(a, n)]
                 + [{"c1": a, "c2": b, "maxargs": 1, "npalette": 6, "independent": True} for a in range(n) for b in range(a, n)])
 
